@@ -1,12 +1,12 @@
 CONSTANTS
-  Entries <- QEntries
-  DirNames <- QDirNames
+  Entries <- PEntries
+  DirNames <- PDirNames
   MaxTop = 2
   MaxChild = 1
   PreStates <- QPre
-  GuardFinal = FALSE
+  GuardFinal = TRUE
   FileRoots = FALSE
-  MatchPaths <- NoMatch
+  MatchPaths <- PMatch
 SPECIFICATION Spec
 CHECK_DEADLOCK FALSE
 INVARIANT Contained
